@@ -51,8 +51,19 @@ def obligations(repo):
     if reg is not None:
         ok = all(inside for node, inside in _inside_with(reg, "self._lock") if isinstance(node, ast.Attribute) and ast.unparse(node) == "self.lookup")
         ob("overload", "read-modify-write-of-lookup-under-the-instance-lock", ok)
-        src = ast.unparse(reg)
-        ob("overload", "lookup-replaced-copy-on-write", "self.lookup = {**self.lookup, key: value}" in src, src[-80:])
+        # copy-on-write: the table other threads may be reading is never mutated in place; `self.lookup` is only ever re-bound to a freshly built dict
+        # (what the new dict contains is C07's obligation Overloaded.register:lookup-becomes-lookup-plus-alias)
+        inplace = [ast.unparse(n) for n in ast.walk(reg)
+                   if (isinstance(n, ast.Subscript) and isinstance(n.ctx, (ast.Store, ast.Del)) and ast.unparse(n.value) == "self.lookup")
+                   or (isinstance(n, ast.Call) and isinstance(n.func, ast.Attribute) and ast.unparse(n.func.value) == "self.lookup"
+                       and n.func.attr in ("update", "setdefault", "pop", "popitem", "clear", "__setitem__", "__delitem__"))]
+        fresh = {}
+        for n in ast.walk(reg):
+            if isinstance(n, ast.Assign) and len(n.targets) == 1 and isinstance(n.targets[0], ast.Name):
+                fresh.setdefault(n.targets[0].id, []).append(isinstance(n.value, (ast.Dict, ast.DictComp)) or (isinstance(n.value, ast.Call) and ast.unparse(n.value.func) == "dict"))
+        rebinds = [n.value for n in ast.walk(reg) if isinstance(n, ast.Assign) and any(ast.unparse(t) == "self.lookup" for t in n.targets)]
+        okcow = bool(rebinds) and all(isinstance(v, (ast.Dict, ast.DictComp)) or (isinstance(v, ast.Name) and fresh.get(v.id) and all(fresh[v.id])) for v in rebinds)
+        ob("overload", "lookup-replaced-copy-on-write", not inplace and okcow, inplace or [ast.unparse(v) for v in rebinds])
     # MemoryCache: entries are only added (never deleted) - concurrent readers see a stored value or a miss
     mc = repo.module("cache").classes["MemoryCache"]
     dels = [ast.unparse(n) for m in mc.methods.values() for n in ast.walk(m) if isinstance(n, ast.Delete) or (isinstance(n, ast.Call) and isinstance(n.func, ast.Attribute) and n.func.attr in ("pop", "clear", "popitem"))]
